@@ -273,7 +273,8 @@ def fam_op(ctx):
 
 
 METHODS = [('lag', 1), ('madd', 2), ('range', 2), ('clip', 2), ('lag2', 1), ('linlin', 4), ('min', 1), ('round', 1),
-           ('wrap', 2), ('lagud', 2)]
+           ('wrap', 2), ('lagud', 2), ('linexp', 4)]
+CLIP_ARG = [(), (None,), ('max',)]       # trailing clip argument of the range-mapping methods: default, "do not clip", one side
 
 
 def fam_method(ctx):
@@ -290,6 +291,11 @@ def fam_method(ctx):
         return {'key': f'c03:method:{sub}', 'replay': dict(rec, sub=sub)}
     args = [mkval(s, 0.1 * (i + 1)) for i, s in enumerate(shapes)]
     what = f'ChannelList[{n}].{name}{tuple(shapes)}'
+    if name in ('linlin', 'linexp'):
+        ck = ctx.choose('clip', len(CLIP_ARG))
+        rec['clip'] = ck
+        args = args + list(CLIP_ARG[ck])
+        what += f' clip={CLIP_ARG[ck]}'
 
     mixed = ctx.choose('mixed_rates', 2)       # channels of different rates: every channel keeps ITS rate
     rec['mixed'] = mixed
